@@ -312,3 +312,38 @@ def frame_schema(s: Dict[str, Any], pa=None):
         drop_invalid_rows=bool(s["drop"]),
         **kw,
     )
+
+
+def full_column(c: Dict[str, Any], pa=None, index: bool = False):
+    """Column / Index with EVERY attribute of the abstract record (C15, C12)"""
+    import pandera as _pa
+
+    pa = pa or _pa
+    kw: Dict[str, Any] = dict(checks=[check(x, pa) for x in c["checks"]], nullable=bool(c["nullable"]), unique=bool(c["unique"]),
+                              report_duplicates=c["report"], coerce=bool(c["coerce"]))
+    if not is_na(c["default"]):
+        kw["default"] = val(c["default"])
+    if c.get("title"):
+        kw["title"] = "T"
+    if c.get("desc"):
+        kw["description"] = "D"
+    if c.get("meta"):
+        kw["metadata"] = {"k": 1}
+    if c.get("drop"):
+        kw["drop_invalid_rows"] = True
+    if index:
+        return pa.Index(DT[c["dtype"]], name=val(c["key"]), **kw)
+    return pa.Column(DT[c["dtype"]], required=bool(c["required"]), regex=bool(c["regex"]), **kw)
+
+
+def ops_schema(s: Dict[str, Any], pa=None):
+    import pandera as _pa
+
+    pa = pa or _pa
+    cols = {val(c["key"]): full_column(c, pa) for c in s["cols"]}
+    kw: Dict[str, Any] = {}
+    if len(s["index"]) == 1:
+        kw["index"] = full_column(s["index"][0], pa, index=True)
+    elif len(s["index"]) > 1:
+        kw["index"] = pa.MultiIndex([full_column(l, pa, index=True) for l in s["index"]])
+    return pa.DataFrameSchema(cols, ordered=bool(s.get("ordered")), **kw)
